@@ -230,6 +230,11 @@ def setRoots (s : State) (pem : Option (List Bytes)) : State × Bool :=
   | some (c :: cs) => ({ s with roots := poolOrder (c :: cs) }, true)
   | _ => (s, false)
 
+/-- … together with the outcome of persisting the bundle (`Backend.Upload("_roots.pem", …)`, before the swap): when
+the storage refuses it the call fails and the pool — what validation uses and what get-roots reports — stays as it was. -/
+def setRootsStored (s : State) (pem : Option (List Bytes)) (stored : Bool) : State × Bool :=
+  if stored then setRoots s pem else (s, false)
+
 /-- `get-roots` -/
 def getRoots (s : State) : List Bytes := s.roots
 
